@@ -1,5 +1,159 @@
+/- Driver front-end of the Den family: JSON Stmt -> `Den.Stmt`, then the model's own `answer` / fragment
+   predicates / `run`.  Requests: {"op":"den","prog":<Stmt>,"runs":[[0|1,…],…]?}. -/
 import SuppModel.Drv.Util
+import SuppModel.Den.Model
+import SuppModel.Den.Sem
 namespace SuppModel.Drv.Den
-open Lean SuppModel.Drv
-def handle (_j : Json) : Json := errJson "driver for Den not built yet"
+open Lean SuppModel.Drv SuppModel.Den
+
+def mkSeq : List Stmt → Stmt
+  | [] => .skip
+  | [s] => s
+  | s :: rest => .seq s (mkSeq rest)
+
+def arrOf (j : Json) : Except String (Array Json) := j.getArr?
+
+/-- names declared `global` by the statements of a scope body (not inside nested scopes) -/
+partial def declared (j : Json) : List Den.Ident :=
+  match j.getArr? with
+  | .ok a =>
+    match a[0]? >>= (·.getStr?.toOption) with
+    | some "global" => ((a[1]? >>= (·.getArr?.toOption)).getD #[]).toList.filterMap (·.getStr?.toOption)
+    | some "seq" => ((a[1]? >>= (·.getArr?.toOption)).getD #[]).toList.flatMap declared
+    | some "if" => (a.toList.drop 1).flatMap declared
+    | some "while" => (a.toList.drop 1).flatMap declared
+    | some "for" => (a.toList.drop 3).flatMap declared
+    | some "try" => (declared (a[1]?.getD Json.null)) ++ (declared (a[3]?.getD Json.null)) ++ (declared (a[4]?.getD Json.null))
+        ++ (((a[2]? >>= (·.getArr?.toOption)).getD #[]).toList.flatMap fun h =>
+              declared (((h.getArr?.toOption).getD #[])[2]?.getD Json.null))
+    | _ => []
+  | .error _ => []
+
+partial def conv (gl : List Den.Ident) (j : Json) : Except String Stmt := do
+  let a ← j.getArr?
+  let tag ← (a[0]?.getD Json.null).getStr?
+  let arg (i : Nat) : Json := a[i]?.getD Json.null
+  let bindOf (j : Json) : Except String (Den.Ident × Site) := do
+    let b ← j.getArr?
+    let x ← (b[1]?.getD Json.null).getStr?
+    let d ← (b[2]?.getD Json.null).getNat?
+    pure (x, d)
+  let mkBind (x : Den.Ident) (d : Site) : Stmt := if x ∈ gl then .gbind x d else .bind x d
+  let binds (j : Json) : Except String Stmt := do
+    let xs ← j.getArr?
+    let bs ← xs.toList.mapM bindOf
+    pure (mkSeq (bs.map fun (x, d) => mkBind x d))
+  match tag with
+  | "bind" => do let (x, d) ← bindOf j; pure (mkBind x d)
+  | "read" => do
+      let x ← (arg 1).getStr?
+      let r ← (arg 2).getNat?
+      pure (.read x r)
+  | "seq" => do
+      let xs ← (arg 1).getArr?
+      let ss ← xs.toList.mapM (conv gl)
+      pure (mkSeq ss)
+  | "if" => do pure (.ite (← conv gl (arg 1)) (← conv gl (arg 2)) (← conv gl (arg 3)))
+  | "while" => do pure (.while_ (← conv gl (arg 1)) (← conv gl (arg 2)) (← conv gl (arg 3)))
+  | "for" => do pure (.for_ (← conv gl (arg 1)) (← binds (arg 2)) (← conv gl (arg 3)) (← conv gl (arg 4)))
+  | "try" => do
+      let b ← conv gl (arg 1)
+      let hs ← (arg 2).getArr?
+      let e ← conv gl (arg 3)
+      let f ← conv gl (arg 4)
+      if hs.isEmpty then pure (.fin (.seq b e) f) else
+      let hl ← hs.toList.mapM fun h => do
+        let ha ← h.getArr?
+        let ty ← conv gl (ha[0]?.getD Json.null)
+        let nm ← match ha[1]?.getD Json.null with
+          | Json.null => pure Stmt.skip
+          | n => do let (x, d) ← bindOf n; pure (mkBind x d)
+        let hb ← conv gl (ha[2]?.getD Json.null)
+        pure (ty, nm, hb)
+      let chain := hl.foldr (fun (ty, nm, hb) rest => Stmt.hcons ty nm hb rest) Stmt.hnil
+      -- raise points as first / last statement of the body become the flags of `tryx`
+      let (r1, b1) := match b with
+        | .seq (.mayraise _) t => (true, t)
+        | .mayraise _ => (true, Stmt.skip)
+        | t => (false, t)
+      let rec stripLast : Stmt → Bool × Stmt
+        | .seq s (.mayraise _) => (true, s)
+        | .seq s t => let (f, t') := stripLast t; (f, .seq s t')
+        | .mayraise _ => (true, .skip)
+        | t => (false, t)
+      let (r2, b2) := stripLast b1
+      pure (.fin (.tryx r1 r2 b2 chain e) f)
+  | "comp" => do
+      let gens ← (arg 1).getArr?
+      let elt ← conv gl (arg 2)
+      let gl' ← gens.toList.mapM fun g => do
+        let ga ← g.getArr?
+        let it ← conv gl (ga[0]?.getD Json.null)
+        -- comprehension variables are never diverted to the module's global names
+        let tgs ← (ga[1]?.getD Json.null).getArr?
+        let tgl ← tgs.toList.mapM bindOf
+        let tg := mkSeq (tgl.map fun (x, d) => Stmt.bind x d)
+        let ifs ← conv gl (ga[2]?.getD Json.null)
+        pure (it, tg, ifs)
+      match gl' with
+      | [] => throw "comp without generators"
+      | (it, tg, ifs) :: rest =>
+        -- build right-nested: cfor tg ifs (seq it2 (cfor tg2 ifs2 (… elt)))
+        let rec build : List (Stmt × Stmt × Stmt) → Stmt
+          | [] => elt
+          | (it', tg', ifs') :: more => Stmt.seq it' (Stmt.cfor tg' ifs' (build more))
+        pure (.comp it (.cfor tg ifs (build rest)))
+  | "def" => do
+      let pre ← conv gl (arg 1)
+      let (f, d) ← bindOf (arg 2)
+      let ps ← (arg 3).getArr?
+      let pl ← ps.toList.mapM bindOf
+      let params := mkSeq (pl.map fun (x, d) => Stmt.bind x d)
+      let body ← conv (declared (arg 4)) (arg 4)
+      if f ∈ gl then pure (.seq (.def_ pre "%global-def" d params body) (.gbind f d))
+      else pure (.def_ pre f d params body)
+  | "lambda" => do
+      let pre ← conv gl (arg 1)
+      let ps ← (arg 2).getArr?
+      let pl ← ps.toList.mapM bindOf
+      let params := mkSeq (pl.map fun (x, d) => Stmt.bind x d)
+      let body ← conv [] (arg 3)
+      pure (.lam pre params body)
+  | "class" => do
+      let pre ← conv gl (arg 1)
+      let (c, d) ← bindOf (arg 2)
+      let body ← conv (declared (arg 3)) (arg 3)
+      if c ∈ gl then pure (.seq (.cls pre "%global-class" d body) (.gbind c d))
+      else pure (.cls pre c d body)
+  | "mayraise" => do pure (.mayraise (← (arg 1).getNat?))
+  | "break" => pure .brk
+  | "continue" => pure .cont
+  | "return" => pure .ret
+  | "raise" => pure .raise_
+  | "global" => pure .skip
+  | "nonlocal" => pure .skip
+  | t => throw s!"unknown statement {t}"
+
+def altsJson (as : Alts) : Json :=
+  Json.arr (as.eraseDups.toArray.map fun
+    | some d => Json.num d
+    | none => Json.str "undef")
+
+def traceJson (t : List (RId × Option Site)) : Json :=
+  Json.arr (t.toArray.map fun (r, v) => Json.arr #[Json.num r, match v with | some d => Json.num d | none => Json.null])
+
+def handle (j : Json) : Json :=
+  match (do
+    let prog ← conv [] (← j.getObjVal? "prog")
+    let ats := (readsOf prog).map fun (r, x) => Json.arr #[Json.num r, Json.str x, altsJson (answer prog r x)]
+    let runs := match j.getObjVal? "runs" with
+      | .ok (Json.arr rs) => rs.toList.map fun (ds : Json) =>
+          let dl := ((ds.getArr?.toOption).getD #[]).toList.map fun (b : Json) => (b.getNat?.toOption.getD 0) != 0
+          let (o, tr) := runProg prog dl
+          Json.mkObj [("outcome", Json.str (toString (repr o))), ("trace", traceJson tr)]
+      | _ => []
+    pure (Json.mkObj [("at", Json.arr ats.toArray), ("inC02", Json.bool (inC02 prog)), ("inC03", Json.bool (inC03 prog)),
+                      ("inSem", Json.bool (inSem prog)), ("runs", Json.arr runs.toArray)]) : Except String Json) with
+  | .ok r => r
+  | .error e => errJson e
 end SuppModel.Drv.Den
